@@ -250,6 +250,7 @@ func (ds *AnySource) Stop() error {
 
 	ds.RunDoneWait()
 	verifPoint("stop.waited")
+	ds.abandonArchiveBlock()
 	ds.groupKeysSorted = make([]GroupIndex, 0)
 	if ds.writingState.Active { // if writing, Stop writing
 		wcc := WriteControlConfig{Request: "STOP"}
@@ -365,6 +366,18 @@ func (ds *AnySource) getPulseLengths() (int, int, error) {
 		}
 	}
 	return NPresamples, NSamples, nil
+}
+
+// abandonArchiveBlock gives up a raw-data block request that has not been filled (the run ended first).
+// Otherwise the stale request would keep collecting in the next run, refuse all new requests, and crash
+// the core loop if the source now has a different number of channels.
+func (ds *AnySource) abandonArchiveBlock() {
+	ab := &ds.archiveBlock
+	if ab.active {
+		ab.active = false
+		ab.segments = nil
+		close(ab.complete) // tells the file-writing goroutine that nothing will come
+	}
 }
 
 func (ds *AnySource) archiveNewDataBlock(block *dataBlock) {
@@ -935,6 +948,7 @@ func (ds *AnySource) PrepareRun(Npresamples int, Nsamples int) error {
 
 	ds.abortSelf = make(chan struct{})
 	ds.nextBlock = make(chan *dataBlock)
+	ds.abandonArchiveBlock() // a raw-data request left unfinished by the previous run must not carry over
 
 	// Create a TriggerBroker to handle secondary triggering
 	ds.broker = NewTriggerBroker(ds.nchan)
@@ -1172,7 +1186,13 @@ func (ds *AnySource) ArchiveDataBlock(N int, file *os.File, finalName string) er
 	// Launch this goroutine, which will execute when the filled block arrives on the complete channel
 	go func() {
 		// When the archiveBlock is filled, write to npz file.
-		filled := <-complete
+		filled, ok := <-complete
+		if !ok {
+			// The request was abandoned (the run ended before enough data arrived): no file.
+			file.Close()
+			os.Remove(file.Name())
+			return
+		}
 		if err := ds.writeNPZData(file, filled); err != nil {
 			file.Close()
 		}
